@@ -81,6 +81,17 @@ theorem C08_bufscan_offsets_ordered (dia : Dialect) (mf size : Nat) (pol : Polic
       r.textStart ≤ r.tvalueStart ∧ r.tvalueStart + r.tok.text.length ≤ r.next ∧ r.next ≤ r.limit ∧ r.limit ≤ r.size :=
   tokensLoopB_ordered dia mf pol _ _ _ [] [] (init_abs mf size chunks hmf hsize hne) (fun _ h => by simp at h)
 
+/-- **C08, the string terminator the parser writes into the scan buffer fits**: parse_cif / parse_container execute
+    `*(token_value + token_length) = 0` (and restore the unit afterwards) behind every BLOCK_HEAD / FRAME_HEAD token.  For every
+    input, chunking, initial buffer size and policy that unit lies INSIDE the buffer array (`tvalue_start + tvalue_length <
+    buffer_size`) — even when the token is as long as the buffer, or ends with the last buffered unit: a whitespace-delimited token
+    is ended either by BACK_UP over a buffered unit or by the end of the input, and then get_more_chars() had made room first. -/
+theorem C08_bufscan_terminator_fits (dia : Dialect) (mf size : Nat) (pol : Policy) (chunks : List Str)
+    (hmf : 1 ≤ mf) (hsize : 2 ≤ size) (hne : ∀ c ∈ chunks, c ≠ []) :
+    ∀ r ∈ (tokenizeB dia mf size pol chunks).1,
+      (r.tok.ty = .blockHead ∨ r.tok.ty = .frameHead) → r.tvalueStart + r.tok.text.length < r.size :=
+  tokensLoopB_fits dia mf pol _ _ _ [] [] (init_abs mf size chunks hmf hsize hne) (fun _ h => by simp at h)
+
 /-- **C08, TRIM_TOKEN at buffer level** (the push-back parse_table performs on an unquoted value that begins with or contains a
     colon): on a pending whitespace-delimited token (value = whole token text, as next_token leaves a VALUE — `TokShape`),
     `TRIM_TOKEN(scanner, n); ttype = ty` keeps the first `n` units as the token value, puts the other units back in front of the rest
@@ -163,5 +174,11 @@ example :
     let s : BS := ⟨⟨[39, 107, 39, 58], 4, 4, 4, 0, 1⟩, 1, 1, 4, .key, ⟨false, true⟩, ⟨[]⟩⟩
     s.sb.Inv ∧ (s.sb.tvalueStart + s.tvlen < s.sb.next ∧ s.get (s.sb.next - 1) = colon) ∧ s.value = [107] ∧
     (pushColonB s .qvalue).sb.next = 3 ∧ (pushColonB s .qvalue).col = 3 := by decide
+
+-- a block header that fills the (doubled) buffer exactly, `data_abc` = 8 units through a 4-unit buffer with the end of the input
+-- behind it: the token ends at offset 8 = buffer_limit = the old buffer_size; the get_more_chars() call that detects the end of
+-- the input has doubled the buffer to 16 first, so the terminator lands inside it
+example : (tokenizeB .cif2 2 4 acceptAll [[100, 97, 116, 97, 95, 97, 98, 99]]).1.map (fun r => (r.tok.ty, r.tvalueStart + r.tok.text.length, r.limit, r.size))
+    = [(.blockHead, 8, 8, 16), (.end_, 8, 8, 16)] := by decide
 
 end CifModel
